@@ -8,7 +8,7 @@ from pathlib import Path
 from mc.core import UnitResult
 
 ID = "C18"
-PARTS = ['bool', 'disable_all', 'disable_all_off', 'error-case', 'int', 'list', 'cli-assembly']      # outcome classes every run must produce (guards against a part of the exploration silently not running)
+PARTS = ['bool', 'disable_all', 'disable_all_off', 'error-case', 'int', 'list', 'pathlist', 'cli-assembly']      # outcome classes every run must produce (guards against a part of the exploration silently not running)
 RULE = ("state = a stack of 1-3 config files chained by extend_config (written first or last in the table), each setting or not, per scope (top, override a, override a.b), "
         "one option (boolean error code / integer / list / disable_all + explicit enable), plus a command-line instance, queried for modules (), a, a.b, a.b.c, x; every "
         "combination is enumerated; real: Options.from_option_list(cmdline, main file).for_module(m).get_value_for / is_error_code_enabled; oracle: the documented precedence "
@@ -77,6 +77,11 @@ def configs(tier):
                 for cmd in (False, True):
                     for ef in ((True, False) if nf > 1 else (True,)):
                         out.append((kind, nf, assign, cmd, ef))
+        # a list-valued option of the path kind (stub_path): "list-valued options concatenate in that order"
+        for assign in itertools.product((0, 1), repeat=locs):
+            if sum(assign) >= 2:
+                for ef in ((True, False) if nf > 1 else (True,)):
+                    out.append(("pathlist", nf, assign, False, ef))
         vals3 = (None, True, False)
         for assign in itertools.product(range(3), repeat=locs):
             if nf == 3 and sum(1 for a in assign if a) > 5:
@@ -129,11 +134,11 @@ def _build(kind, nf, assign):
                 continue
             if kind == "int":
                 v = 100 + 10 * i + j
-            elif kind == "list":
+            elif kind in ("list", "pathlist"):
                 v = ["f%ds%d" % (i, j)]
             else:
                 v = (a == 1)
-            key = {"int": "maximum_positional_args", "list": "extra_builtins", "bool": "undefined_name"}[kind]
+            key = {"int": "maximum_positional_args", "list": "extra_builtins", "bool": "undefined_name", "pathlist": "stub_path"}[kind]
             files[i].setdefault(sc, {})[key] = v
     return files
 
@@ -177,6 +182,11 @@ def _layer(res, tier, lo, hi):
                     got = [x for x in om.get_value_for(ExtraBuiltins) if x != "__IPYTHON__"]
                     src = expected_sources(files, m, "extra_builtins")
                     exp = (["cmd"] if cmd else []) + [x for (i, sc) in src for x in files[i][sc]["extra_builtins"]]
+                elif kind == "pathlist":
+                    from pyanalyze.typeshed import StubPath
+                    got = [Path(x).name for x in om.get_value_for(StubPath)]
+                    src = expected_sources(files, m, "stub_path")
+                    exp = [x for (i, sc) in src for x in files[i][sc]["stub_path"]]
                 elif kind == "bool":
                     got = om.is_error_code_enabled(ErrorCode.undefined_name)
                     src = expected_sources(files, m, "undefined_name")
